@@ -12,9 +12,11 @@ from .. import core
 
 CHAR = {"U+00E9": "é", "U+65E5": "日"}
 LEGACY = {"Esc": b"\x1b", "Enter": b"\r", "Backspace": b"\x7f", "Up": b"\x1b[A", "Down": b"\x1b[B",
-          "Home": b"\x1b[H", "PageUp": b"\x1b[5~"}
-CSI_U = {"Esc": 27, "Enter": 13, "Backspace": 127}
-FUNCTIONAL = {"Up": ("1", "A"), "Down": ("1", "B"), "Home": ("1", "H"), "PageUp": ("5", "~")}
+          "Home": b"\x1b[H", "PageUp": b"\x1b[5~", "End": b"\x1b[F", "PageDown": b"\x1b[6~", "Tab": b"\t",
+          "Delete": b"\x1b[3~", "Left": b"\x1b[D", "F1": b"\x1bOP"}
+CSI_U = {"Esc": 27, "Enter": 13, "Backspace": 127, "Tab": 9}
+FUNCTIONAL = {"Up": ("1", "A"), "Down": ("1", "B"), "Home": ("1", "H"), "PageUp": ("5", "~"), "End": ("1", "F"),
+              "PageDown": ("6", "~"), "Delete": ("3", "~"), "Left": ("1", "D"), "F1": ("1", "P")}
 WHEEL = {"k": b"\x1b[<64;10;10M", "j": b"\x1b[<65;10;10M"}
 FIELDS = (("n", "n"), ("m", "tracked"), ("sel", "sel"), ("quit", "quit"), ("search", "search"),
           ("q", "qbytes"), ("sortKey", "sort_key"), ("sortAsc", "sort_asc"), ("width", "width"))
